@@ -738,7 +738,10 @@ func YieldHook(site string) {
 	// a breakpoint may be placed on a yield site (client "*", op "yield:<site>", phase "site"):
 	// the goroutine is parked right there, inside the library, until the driver releases it
 	r.yieldClient.atPhase("yield:"+site, "site")
-	if r.Spec.YieldP <= 0 {
+	if r.Spec.YieldP <= 0 || site == "promoteGoroutineEntry" || site == "stopBetweenReadAndDelete" {
+		// (these two sites are only ever used with breakpoints: a random delay before the
+		// promotion callback would make every quiescent sample in between look like a
+		// missing callback, and the other one sits inside a known, recorded window)
 		return
 	}
 	r.St.mu.Lock()
